@@ -2,7 +2,9 @@ import BarterModel.Driver.Common
 import BarterModel.Model.Stale
 /-!
 Line-protocol driver for C09. Ops: `init n` | `bal a t total free` | `full (a t total free)*`
-| `trade i t price` | `l1 i te tl bp ba ap aa` | `l1e i te tl` (empty top of book) | `ord i c id t filled` (open report, quantity 10)
+| `trade i t price [B|S amount]` | `l1 i te tl bp ba ap aa` (a side written `-1 -1` is ABSENT: one-sided top of book; the
+harness prints it back as `-1,-1`, so the register model carries it as an ordinary value) | `l1e i te tl` (empty top of book)
+| `mkt i t <candle|liq|booksnap|bookupd> price` (a market event of a kind that feeds no register) | `ord i c id t filled` (open report, quantity 10)
 | `cancel i c` (a cancel request for the order is sent: `record_in_flight_cancel`)
 | `ordx i c <Cancelled|Filled|Expired|Failed> t` (TERMINAL order report; `t` is the exchange time of a
 `Cancelled` report: the code never reads it, the SPEC does - a Cancelled report is a timestamped message about the order)
@@ -57,6 +59,8 @@ inductive POp where
   | cancel (i c : Nat)
   | ordx (i c : Nat) (k : Inactive) (t : Int)
   | acct (bals : List (Nat × Msg Bal)) (ords : List (Nat × Snap))
+  /-- a market event of a kind that feeds no register (candle / liquidation / L2 book) -/
+  | other (i : Nat)
 
 def parseInactive : String → Option Inactive
   | "Cancelled" => some .cancelled
@@ -101,9 +105,21 @@ def parseOp : List String → Option POp
     match i.toNat?, t.toInt?, parseRat? p with
     | some i, some t, some p => some (.trade i t p)
     | _, _, _ => none
+  -- a public trade with its side and amount spelled out (neither is part of any register)
+  | ["trade", i, t, p, sd, am] =>
+    match i.toNat?, t.toInt?, parseRat? p, parseRat? am with
+    | some i, some t, some p, some _ => if sd == "B" || sd == "S" then some (.trade i t p) else none
+    | _, _, _, _ => none
+  | ["mkt", i, t, k, p] =>
+    match i.toNat?, t.toInt?, parseRat? p with
+    | some i, some _, some _ =>
+      if k == "candle" || k == "liq" || k == "booksnap" || k == "bookupd" then some (.other i) else none
+    | _, _, _ => none
   | ["l1", i, te, tl, bp, ba, ap, aa] =>
     match i.toNat?, te.toInt?, tl.toInt?, parseRat? bp, parseRat? ba, parseRat? ap, parseRat? aa with
-    | some i, some te, some tl, some bp, some ba, some ap, some aa => some (.l1 i te ⟨tl, bp, ba, ap, aa⟩)
+    | some i, some te, some tl, some bp, some ba, some ap, some aa =>
+      -- both sides written absent (`-1 -1`): not an `l1` op (an empty book is `l1e`); the harness rejects it too
+      if bp == -1 && ba == -1 && ap == -1 && aa == -1 then none else some (.l1 i te ⟨tl, bp, ba, ap, aa⟩)
     | _, _, _, _, _, _, _ => none
   | ["l1e", i, te, tl] =>
     match i.toNat?, te.toInt?, tl.toInt? with
@@ -132,6 +148,7 @@ def POp.inRange (n : Nat) : POp → Bool
   | .cancel i _ => i < n
   | .ordx i _ _ _ => i < n
   | .acct bals ords => bals.all (fun am => am.1 < n + 1) && ords.all (fun is => is.1 < n)
+  | .other i => i < n
 
 def model : Drv St where
   init := ⟨Eng.init 0 0, [], 0⟩
@@ -155,6 +172,8 @@ def model : Drv St where
           | .ordx i c k _ => { s with orders := s.orders.apply i (.snapshot (finishedSnap c k)) }
           | .acct bals ords =>
             { s with eng := s.eng.fullSnapshot bals, orders := s.orders.applySnapshot ords }
+          -- DefaultInstrumentMarketData::process: `_ => {}`
+          | .other _ => s
         (s', obs s')
 
 /-- spec state: the delivered messages per item, in delivery order -/
@@ -198,10 +217,15 @@ def specOrdLine (key : String) (ms : List (Msg Open)) (fin : List (Option Int)) 
     if cancelledLatest then key ++ " none"
     else key ++ " " ++ setOf (if !fin.isEmpty then "none" :: vals else vals)
 
-/-- one order report of a full account snapshot / an `ord` / `ordx` op, as the spec sees it -/
+/-- one order report of a full account snapshot / an `ord` / `ordx` op, as the spec sees it.
+An OPEN report with nothing left to fill (`filled = quantity`) is both: a timestamped message about the
+order (its details count towards "the greatest exchange timestamp delivered") and the exchange's word
+that the order is finished (from then on "not held" is admitted, as after `ordx … Filled`). -/
 def specOrder (s : SpecSt) (i : Nat) (sn : Snap) (tTerminal : Option Int := none) : SpecSt :=
   match sn.state with
-  | .active (.opn o) => { s with ords := pushAt s.ords i (sn.cid, (o.t, o)) }
+  | .active (.opn o) =>
+    let s1 := { s with ords := pushAt s.ords i (sn.cid, (o.t, o)) }
+    if o.filled == sn.quantity then { s1 with fin := pushAt s1.fin i (sn.cid, none) } else s1
   | .inactive k =>
     { s with fin := pushAt s.fin i (sn.cid, match k with | .cancelled => tTerminal | _ => none) }
   | _ => s
@@ -244,7 +268,7 @@ def spec : Drv SpecSt where
           | .l1 i te x =>
             if x.tl == te then { s with l1s := pushAt s.l1s i (te, x) }
             else { s with l1Poisoned := s.l1Poisoned.set i true }
-          | .ord i c o => { s with ords := pushAt s.ords i (c, (o.t, o)) }
+          | .ord i c o => specOrder s i (openSnap c o)
           -- a cancel request sent (once or repeatedly) delivers nothing from the exchange
           | .cancel _ _ => s
           | .ordx i c k t => specOrder s i (finishedSnap c k) (some t)
@@ -255,6 +279,7 @@ def spec : Drv SpecSt where
               match is.2.state with
               | .inactive _ => (specOrder acc.1 is.1 is.2 acc.2.head?, acc.2.tail)
               | _ => (specOrder acc.1 is.1 is.2, acc.2)) (s1, acctTerminalTimes (toks.drop 1))).1
+          | .other _ => s
         (s', specObs s')
 
 end BarterModel.Driver.C09
